@@ -1,7 +1,7 @@
 (* C18 -- board bring-up reaches an in-sync shell for any console timing or times out duly.
    Property theorems only; proofs are in ProofC18.v over the model Boot.v (AskfirstInitializer + LinuxBootLogin).
    The console is ARBITRARY in these theorems: any stages, any fragmentation, any timing.  Times in 2^-10 s. *)
-From TV Require Import Base Utf8 Regex Channel ChannelLemmas ProofC06 Hush Session ProofC02 ProofSession ProofC04b ProofLive Boot ProofC18 ProofC18b ProofC18c ProofC18d.
+From TV Require Import Base Utf8 Regex Channel ChannelLemmas ProofC06 Hush Session ProofC02 ProofSession ProofC04b ProofLive Boot ProofC18 ProofC18b ProofC18c ProofC18d ProofC18e Sh ProofC01 ProofInit ProofInitRetry ProofC18f ProofLive2 ProofC18g ProofC18h ProofC18i ProofC18j ProofC19 ProofC18k.
 
 (* (1) with a boot timeout T configured, whatever the console does -- trickles, stalls, prints garbage, never shows
        a prompt -- the whole Linux stage (askfirst banner, login, optional delay, password) ends no later than T after
@@ -137,3 +137,259 @@ Theorem C18_uboot_stage_succeeds_when_the_prompts_arrive_in_time :
     wr (io c') = wr (io c) ++ u_keys cfg /\ pend (io c') = [] /\ prompt c' = Some (SLit (u_prompt cfg)).
 Proof. exact uboot_succeeds. Qed.
 Print Assumptions C18_uboot_stage_succeeds_when_the_prompts_arrive_in_time.
+
+(* (11) the login of a machine without a password: when the output up to the login prompt arrives before the boot
+        timeout, exactly the user name is sent and the stage succeeds within the timeout -- for EVERY fragmentation
+        and timing; what the console prints afterwards stays pending for the shell's initialisation *)
+Theorem C18_login_without_password_succeeds :
+  forall cfg c (st_user : stage) (sts : list stage) noise0,
+  b_login_delay cfg = 0%Z -> b_password cfg = None ->
+  match b_timeout cfg with Some T => (0 < T)%Z | None => True end ->
+  wfc c -> deaths c = [] -> slow c = None ->
+  cpend c = noise0 ++ LOGIN_P -> prompt_only_at_end LOGIN_P noise0 ->
+  ready (deadline (now (io c)) (b_timeout cfg)) (pend (io c)) = length (cpend c) ->
+  any_in (blacklist c) (utf8_enc (b_user cfg) ++ [CR]) = false ->
+  wf_pend st_user ->
+  exists c',
+    login_step cfg (now (io c)) (st_user :: sts) c = (BOk, c', sts) /\
+    wr (io c') = wr (io c) ++ (utf8_enc (b_user cfg) ++ [CR]) /\
+    pend (io c') = shift (now (io c')) st_user /\ wfc c' /\ deaths c' = [] /\
+    match b_timeout cfg with Some T => (now (io c') < now (io c) + T)%Z | None => True end.
+Proof. exact login_without_password_succeeds. Qed.
+Print Assumptions C18_login_without_password_succeeds.
+
+(* (12) the chain "log in, then initialise the shell" on one channel: under the hypotheses of (8) for the login and of
+        C01's theorem for _init_shell (the probe's answer shows up, in time, in what the console prints after the
+        password and after the probe; the later answers contain the prompt only at their end) the board ends up with
+        an in-sync shell: exactly user name and password sent within the boot timeout, then prompt and black-list
+        installed and nothing unread -- for EVERY fragmentation and timing of every reaction *)
+Theorem C18_login_then_shell_initialisation :
+  forall fuel tmo bl cfgl cfg c pw (st_user st_pw st0 st_ps1 : stage) (stgs : list stage) (st_san : stage)
+         noise0 noise1 a noiseP,
+  let rest := st0 :: st_ps1 :: stgs ++ [st_san] in
+  b_askfirst cfg = false -> b_login_delay cfg = 0%Z -> b_password cfg = Some pw ->
+  match b_timeout cfg with Some T => (0 < T)%Z | None => True end ->
+  match b_nopw cfg with Some n => (0 < n)%Z | None => True end ->
+  wfc c -> deaths c = [] -> slow c = None ->
+  cpend c = noise0 ++ LOGIN_P -> prompt_only_at_end LOGIN_P noise0 ->
+  ready (deadline (now (io c)) (b_timeout cfg)) (pend (io c)) = length (cpend c) ->
+  any_in (blacklist c) (utf8_enc (b_user cfg) ++ [CR]) = false ->
+  any_in (blacklist c) (utf8_enc pw ++ [CR]) = false ->
+  wf_pend st_user -> cat st_user = noise1 ++ PASSWORD_P -> prompt_only_at_end PASSWORD_P noise1 ->
+  within (match b_nopw cfg, b_timeout cfg with
+          | None, None => None
+          | None, Some T => Some (now (io c) + T - last_time c)%Z
+          | Some n, None => Some n
+          | Some n, Some T => Some (Z.min (now (io c) + T - last_time c) n)
+          end) st_user ->
+  wf_pend st_pw ->
+  (0 < tmo)%Z -> wf_pend st0 -> any_in (blacklist c) (PROBE ++ [CR]) = false ->
+  find_sub PROBE_ANSWER (cat st_pw ++ cat st0) = Some a ->
+  a + length PROBE_ANSWER <= ready_before tmo (st_pw ++ st0) ->
+  any_in bl (PS1_LINE ++ [CR]) = false ->
+  Forall (fun l => any_in bl (l ++ [CR]) = false) cfgl ->
+  any_in bl (SANITY ++ [CR]) = false ->
+  wf_pend st_ps1 -> cat st_ps1 = noiseP ++ TBOT_PROMPT ->
+  prompt_only_at_end TBOT_PROMPT (skipn (a + length PROBE_ANSWER) (cat st_pw ++ cat st0) ++ noiseP) ->
+  Forall2 (fun l stg => wf_pend stg /\ exists noise, cat stg = noise ++ TBOT_PROMPT /\ prompt_only_at_end TBOT_PROMPT noise) cfgl stgs ->
+  wf_pend st_san -> cat st_san = tty_echo false (SANITY ++ [CR]) ++ onlcr SANITY_ANSWER ++ TBOT_PROMPT ->
+  exists c1 c2,
+    bringup cfg (st_user :: st_pw :: rest) c = (BOk, c1, rest) /\
+    wr (io c1) = wr (io c) ++ (utf8_enc (b_user cfg) ++ [CR]) ++ (utf8_enc pw ++ [CR]) /\
+    match b_timeout cfg with Some T => (now (io c1) < now (io c) + T)%Z | None => True end /\
+    init_shell (S fuel) tmo bl PS1_LINE cfgl rest c1 = (IOk, c2, []) /\
+    insync c2 /\ prompt c2 = Some (SLit TBOT_PROMPT) /\ blacklist c2 = bl.
+Proof. exact login_then_init_ok. Qed.
+Print Assumptions C18_login_then_shell_initialisation.
+
+(* (13) the password prompt that never comes: with a password and no_password_timeout = n configured, when no password
+        prompt occurs among what the console prints during the n after the user name (and the boot timeout leaves more
+        than n), the stage goes on WITHOUT sending the password - exactly the user name was written - at n after the
+        login prompt was complete; what had arrived is consumed, the rest stays pending -- every fragmentation *)
+Theorem C18_login_goes_on_when_no_password_prompt_comes :
+  forall cfg c pw n (st_user : stage) (sts : list stage) noise0,
+  b_login_delay cfg = 0%Z -> b_password cfg = Some pw -> b_nopw cfg = Some n -> (0 < n)%Z ->
+  match b_timeout cfg with Some T => (0 < T)%Z | None => True end ->
+  wfc c -> deaths c = [] -> slow c = None ->
+  cpend c = noise0 ++ LOGIN_P -> prompt_only_at_end LOGIN_P noise0 ->
+  ready (deadline (now (io c)) (b_timeout cfg)) (pend (io c)) = length (cpend c) ->
+  any_in (blacklist c) (utf8_enc (b_user cfg) ++ [CR]) = false ->
+  wf_pend st_user ->
+  match b_timeout cfg with Some T => (n < now (io c) + T - last_time c)%Z | None => True end ->
+  contains PASSWORD_P (firstn (ready_before n st_user) (cat st_user)) = false ->
+  exists c',
+    login_step cfg (now (io c)) (st_user :: sts) c = (BOk, c', sts) /\
+    wr (io c') = wr (io c) ++ (utf8_enc (b_user cfg) ++ [CR]) /\
+    now (io c') = (last_time c + n)%Z /\
+    cpend c' = skipn (ready_before n st_user) (cat st_user) /\ wfc c' /\ deaths c' = [].
+Proof. exact login_goes_on_without_password_prompt. Qed.
+Print Assumptions C18_login_goes_on_when_no_password_prompt_comes.
+
+(* (14) liveness of the askfirst stage: when the "Please press Enter to activate this console." banner arrives within
+        the boot timeout, exactly one Enter is sent and the stage succeeds; what was printed behind the consumed data and
+        the reaction to the Enter stay pending for the login -- every fragmentation and timing *)
+Theorem C18_askfirst_succeeds_when_the_banner_arrives_in_time :
+  forall cfg c (st : stage) (sts : list stage) a,
+  match b_timeout cfg with Some T => (0 < T)%Z | None => True end ->
+  wfc c -> deaths c = [] -> slow c = None ->
+  find_sub ASKFIRST_P (cpend c) = Some a ->
+  a + length ASKFIRST_P <= ready (deadline (now (io c)) (b_timeout cfg)) (pend (io c)) ->
+  any_in (blacklist c) [CR] = false ->
+  wf_pend st ->
+  exists c' data,
+    askfirst_step cfg (st :: sts) c = (BOk, c', sts) /\
+    wr (io c') = wr (io c) ++ [CR] /\
+    cpend c = data ++ skipn (length data) (cpend c) /\
+    firstn (a + length ASKFIRST_P) data = firstn a (cpend c) ++ ASKFIRST_P /\
+    cpend c' = skipn (length data) (cpend c) ++ cat st /\
+    wfc c' /\ deaths c' = [] /\ slow c' = None /\ blacklist c' = blacklist c.
+Proof. exact askfirst_succeeds. Qed.
+Print Assumptions C18_askfirst_succeeds_when_the_banner_arrives_in_time.
+
+(* (15) (8) under a boot timer that is already running (started by the askfirst stage or by a U-Boot stage at `start`):
+        every deadline is start + T -- the prompts arriving before it => user name and password sent, success before
+        start + T *)
+Theorem C18_login_succeeds_under_a_running_timer :
+  forall cfg start c pw (st_user st_pw : stage) (sts : list stage) noise0 noise1,
+  b_login_delay cfg = 0%Z -> b_password cfg = Some pw ->
+  (start <= now (io c))%Z ->
+  match b_timeout cfg with Some T => (now (io c) < start + T)%Z | None => True end ->
+  match b_nopw cfg with Some n => (0 < n)%Z | None => True end ->
+  wfc c -> deaths c = [] -> slow c = None ->
+  cpend c = noise0 ++ LOGIN_P -> prompt_only_at_end LOGIN_P noise0 ->
+  ready (deadline start (b_timeout cfg)) (pend (io c)) = length (cpend c) ->
+  any_in (blacklist c) (utf8_enc (b_user cfg) ++ [CR]) = false ->
+  any_in (blacklist c) (utf8_enc pw ++ [CR]) = false ->
+  wf_pend st_user -> cat st_user = noise1 ++ PASSWORD_P -> prompt_only_at_end PASSWORD_P noise1 ->
+  within (match b_nopw cfg, b_timeout cfg with
+          | None, None => None
+          | None, Some T => Some (start + T - last_time c)%Z
+          | Some n, None => Some n
+          | Some n, Some T => Some (Z.min (start + T - last_time c) n)
+          end) st_user ->
+  wf_pend st_pw ->
+  exists c',
+    login_step cfg start (st_user :: st_pw :: sts) c = (BOk, c', sts) /\
+    wr (io c') = wr (io c) ++ (utf8_enc (b_user cfg) ++ [CR]) ++ (utf8_enc pw ++ [CR]) /\
+    pend (io c') = shift (now (io c')) st_pw /\ wfc c' /\ deaths c' = [] /\
+    match b_timeout cfg with Some T => (now (io c') < start + T)%Z | None => True end /\
+    slow c' = None /\ blacklist c' = blacklist c.
+Proof. exact login_succeeds_running. Qed.
+Print Assumptions C18_login_succeeds_under_a_running_timer.
+
+(* (16) the chain AskfirstInitializer -> LinuxBootLogin under ONE boot timeout (started when the askfirst stage begins):
+        the banner ends what has been printed and arrives in time, the reaction to the Enter ends with the login prompt
+        before the deadline, the password prompt comes within the password wait => exactly Enter, user name and
+        password are sent and the bring-up succeeds before start + T -- every fragmentation and timing
+        (enter_done = the moment the reaction to the Enter is complete) *)
+Theorem C18_askfirst_then_login_succeeds :
+  forall cfg c pw (st_enter st_user st_pw : stage) (sts : list stage) pre noise0 noise1,
+  b_askfirst cfg = true -> b_login_delay cfg = 0%Z -> b_password cfg = Some pw ->
+  match b_timeout cfg with Some T => (0 < T)%Z | None => True end ->
+  match b_nopw cfg with Some n => (0 < n)%Z | None => True end ->
+  wfc c -> deaths c = [] -> slow c = None ->
+  cpend c = pre ++ ASKFIRST_P -> find_sub ASKFIRST_P (cpend c) = Some (length pre) ->
+  ready (deadline (now (io c)) (b_timeout cfg)) (pend (io c)) = length (cpend c) ->
+  any_in (blacklist c) [CR] = false ->
+  any_in (blacklist c) (utf8_enc (b_user cfg) ++ [CR]) = false ->
+  any_in (blacklist c) (utf8_enc pw ++ [CR]) = false ->
+  wf_pend st_enter -> cat st_enter = noise0 ++ LOGIN_P -> prompt_only_at_end LOGIN_P noise0 ->
+  within (match b_timeout cfg with Some T => Some (now (io c) + T - last_time c)%Z | None => None end) st_enter ->
+  wf_pend st_user -> cat st_user = noise1 ++ PASSWORD_P -> prompt_only_at_end PASSWORD_P noise1 ->
+  within (match b_nopw cfg, b_timeout cfg with
+          | None, None => None
+          | None, Some T => Some (now (io c) + T - enter_done c st_enter)%Z
+          | Some n, None => Some n
+          | Some n, Some T => Some (Z.min (now (io c) + T - enter_done c st_enter) n)
+          end) st_user ->
+  wf_pend st_pw ->
+  exists c',
+    bringup cfg (st_enter :: st_user :: st_pw :: sts) c = (BOk, c', sts) /\
+    wr (io c') = wr (io c) ++ [CR] ++ (utf8_enc (b_user cfg) ++ [CR]) ++ (utf8_enc pw ++ [CR]) /\
+    pend (io c') = shift (now (io c')) st_pw /\ wfc c' /\ deaths c' = [] /\
+    match b_timeout cfg with Some T => (now (io c') < now (io c) + T)%Z | None => True end.
+Proof. exact askfirst_then_login_succeeds. Qed.
+Print Assumptions C18_askfirst_then_login_succeeds.
+
+(* (17) from the login prompt to the first command: log in, initialise the shell, exec -- under the hypotheses of (12)
+        and of C01's exec theorem the command's output and status are exact and its arguments reach the shell as
+        given, for EVERY fragmentation and timing of every reaction of the console *)
+Local Open Scope Z_scope.
+Theorem C18_login_initialisation_and_first_command_exact :
+  forall fuel tmo bl cfgl cfg c pw (st_user st_pw st0 st_ps1 : stage) (stgs : list stage) (st_san : stage)  noise0 noise1 a noiseP args (st1 st2 : stage) out ds,
+  let rest := st0 :: st_ps1 :: stgs ++ [st_san] in
+  b_askfirst cfg = false -> b_login_delay cfg = 0 -> b_password cfg = Some pw ->
+  match b_timeout cfg with Some T => 0 < T | None => True end ->
+  match b_nopw cfg with Some n => 0 < n | None => True end ->
+  wfc c -> deaths c = [] -> slow c = None ->
+  cpend c = noise0 ++ LOGIN_P -> prompt_only_at_end LOGIN_P noise0 ->
+  ready (deadline (now (io c)) (b_timeout cfg)) (pend (io c)) = length (cpend c) ->
+  any_in (blacklist c) (utf8_enc (b_user cfg) ++ [CR]) = false ->
+  any_in (blacklist c) (utf8_enc pw ++ [CR]) = false ->
+  wf_pend st_user -> cat st_user = noise1 ++ PASSWORD_P -> prompt_only_at_end PASSWORD_P noise1 ->
+  within (match b_nopw cfg, b_timeout cfg with
+          | None, None => None
+          | None, Some T => Some (now (io c) + T - last_time c)
+          | Some n, None => Some n
+          | Some n, Some T => Some (Z.min (now (io c) + T - last_time c) n)
+          end) st_user ->
+  wf_pend st_pw ->
+  0 < tmo -> wf_pend st0 -> any_in (blacklist c) (PROBE ++ [CR]) = false ->
+  find_sub PROBE_ANSWER (cat st_pw ++ cat st0) = Some a ->
+  (a + length PROBE_ANSWER <= ready_before tmo (st_pw ++ st0))%nat ->
+  any_in bl (PS1_LINE ++ [CR]) = false ->
+  Forall (fun l => any_in bl (l ++ [CR]) = false) cfgl ->
+  any_in bl (SANITY ++ [CR]) = false ->
+  wf_pend st_ps1 -> cat st_ps1 = noiseP ++ TBOT_PROMPT ->
+  prompt_only_at_end TBOT_PROMPT (skipn (a + length PROBE_ANSWER) (cat st_pw ++ cat st0) ++ noiseP) ->
+  Forall2 (fun l stg => wf_pend stg /\ exists noise, cat stg = noise ++ TBOT_PROMPT /\ prompt_only_at_end TBOT_PROMPT noise) cfgl stgs ->
+  wf_pend st_san -> cat st_san = tty_echo false (SANITY ++ [CR]) ++ onlcr SANITY_ANSWER ++ TBOT_PROMPT ->
+  (* the first command *)
+  Forall nonul args ->
+  any_in bl (utf8_enc (sh_escape args) ++ [CR]) = false ->
+  any_in bl (ECHO_Q ++ [CR]) = false ->
+  wf_pend st1 -> cat st1 = tty_echo false (utf8_enc (sh_escape args) ++ [CR]) ++ onlcr out ++ TBOT_PROMPT ->
+  prompt_only_at_end TBOT_PROMPT (onlcr out) ->
+  wf_pend st2 -> cat st2 = tty_echo false (ECHO_Q ++ [CR]) ++ (ds ++ [CR; LF]) ++ TBOT_PROMPT ->
+  all_digits ds -> ds <> [] -> prompt_only_at_end TBOT_PROMPT (ds ++ [CR; LF]) ->
+  exists c1 c2 c3,
+    bringup cfg (st_user :: st_pw :: rest) c = (BOk, c1, rest) /\
+    init_shell (S fuel) tmo bl PS1_LINE cfgl rest c1 = (IOk, c2, []) /\
+    lx_exec args [st1; st2] c2 = (XOk (dec_val ds) (text (onlcr out)), c3, []) /\
+    insync c3 /\
+    wr (io c3) = wr (io c2) ++ (utf8_enc (sh_escape args) ++ [CR]) ++ (ECHO_Q ++ [CR]) /\
+    sh_words (utf8_enc (sh_escape args)) = Some (map utf8_enc args).
+Proof. exact login_init_exec_exact. Qed.
+Local Close Scope Z_scope.
+Print Assumptions C18_login_initialisation_and_first_command_exact.
+
+(* (18) the U-Boot stage followed by the first U-Boot command (C19's exec theorem composed with (10)): autoboot
+        intercepted, prompt reached within the first poll, then the command's output and status are exact and its
+        arguments reach hush as given -- every fragmentation and timing; exactly the keys and the two lines written *)
+Local Open Scope Z_scope.
+Theorem C18_uboot_stage_then_first_command_exact :
+  forall fuel cfg c S0 k0 (st_keys : stage) noise args (st1 st2 : stage) (sts : list stage) out ds,
+  u_autoboot cfg = true -> u_keys cfg <> [] -> u_prompt cfg <> [] ->
+  match u_timeout cfg with Some T => 0 < T | None => True end ->
+  wfc c -> deaths c = [] -> slow c = None ->
+  cpend c = S0 -> S0 <> [] -> only_tail (prompt_split (Some (SRe AUTOBOOT_RE))) S0 k0 ->
+  ready (deadline (now (io c)) (u_timeout cfg)) (pend (io c)) = length S0 ->
+  wf_pend st_keys -> cat st_keys = noise ++ u_prompt cfg -> prompt_only_at_end (u_prompt cfg) noise ->
+  within (Some HALF) st_keys ->
+  (* the first command *)
+  Forall plain args ->
+  (forall c', prompt c' = Some (SLit (u_prompt cfg)) -> ub_override args c' = None) ->
+  any_in (blacklist c) (utf8_enc (ub_escape args) ++ [CR]) = false ->
+  any_in (blacklist c) (ECHO_Q ++ [CR]) = false ->
+  wf_pend st1 -> cat st1 = (utf8_enc (ub_escape args) ++ [CR; LF]) ++ out ++ u_prompt cfg -> prompt_only_at_end (u_prompt cfg) out ->
+  wf_pend st2 -> cat st2 = (ECHO_Q ++ [CR; LF]) ++ (ds ++ [CR; LF]) ++ u_prompt cfg ->
+  all_digits ds -> ds <> [] -> prompt_only_at_end (u_prompt cfg) (ds ++ [CR; LF]) ->
+  exists c1 c2,
+    uboot_bringup (S fuel) cfg (st_keys :: st1 :: st2 :: sts) c = (BOk, c1, st1 :: st2 :: sts) /\
+    ub_exec args (st1 :: st2 :: sts) c1 = (XOk (dec_val ds) (text out), c2, sts) /\
+    insync c2 /\
+    wr (io c2) = wr (io c) ++ u_keys cfg ++ (utf8_enc (ub_escape args) ++ [CR]) ++ (ECHO_Q ++ [CR]) /\
+    hush_words (utf8_enc (ub_escape args)) = Some (map utf8_enc args).
+Proof. exact uboot_then_exec_exact. Qed.
+Local Close Scope Z_scope.
+Print Assumptions C18_uboot_stage_then_first_command_exact.
